@@ -170,6 +170,15 @@ def run(rep, tier, seed):
                         r_ = with_timeout(lambda: decompress(mk(s, R), bad))
                         rep.hist['failed-call-before:%s' % (r_[1] if r_[0] == 'EXC' else 'ok')] = rep.hist.get('failed-call-before:%s' % (r_[1] if r_[0] == 'EXC' else 'ok'), 0) + 1
                 case_decompress(b, s, rule, None, klass='decompress-compute:%s:%d' % (stack, len(subset)), expect=b2s(pkt), side=rnd.choice([L, R]))
+                # the same with the stack's parser as un-parser (it regroups the rebuilt fields by header, by their ids): the computed values
+                # must sit under the ids of the fields they were computed for, so the packet is the same
+                from schc_run import parser_for
+                o_ = obs_bits(with_timeout(lambda: decompress(mk(s, R), rule, unparser=parser_for(stack)))) if not stack.startswith('tunnel') else ('OK', b2s(pkt))
+                rep.count('decompress-compute-unparser', key=('dcu', s, id(rule)))
+                rep.oracle_evals += 1
+                if o_ != ('OK', b2s(pkt)):
+                    rep.violation('property', 'decompress with %d computed fields and the %s parser as un-parser gives %s, the packet is %s' % (len(subset), stack, str(o_)[:100], b2s(pkt)[:100]),
+                                  dict(layer='schc', op='decompress-unparser', stack=stack, schc=s, rule=n_rule(rule), packet=pkt.hex()))
         # the same with a direction: some non-computed fields carry an Up and a Dw descriptor, in either order, so that descriptors the
         # direction filters out sit in front of and between the computed fields (their positions are positions in the FILTERED list)
         if comp:
